@@ -625,6 +625,12 @@ def get_attr(self, st, base, attr, node, default=KeyError):
                 return [(s2, "val", c) for (s2, c) in self.concretize(st, v, node)]
             return [(st, "val", v)]
         if o.kind in ("list", "dict", "set"):
+            if isinstance(o.cls, ClassInfo):
+                m = o.cls.lookup(attr)
+                if m is not None and m.kind == "method":
+                    return [(st, "val", BoundMeth(base, m))]
+                if m is not None and m.kind == "property":
+                    return self.call_function(st, m, [], {}, node, self_val=base)
             return [(st, "val", BoundMeth(base, None, attr))]
         if attr == "__class__":
             return [(st, "val", ClassVal(o.cls))]
